@@ -48,6 +48,17 @@ def run(ctx):
     rows = C.read_tsv(cases)
     hosts = rows[0][1:]
     write_hosts(hosts)
+    # the list read again after a caller wrote into the slice ReservedHosts() had returned (the cases below run after that write)
+    after = [r for r in rows if r and r[0].startswith("#hosts-after")]
+    rows = [r for r in rows if not (r and r[0].startswith("#hosts-after"))]
+    if after and after[0][1:] != hosts:
+        C.violation(ctx, "hosts:caller-write",
+                    "a caller that writes into the slice returned by deeplinks.ReservedHosts() changes the reserved hosts of the process: "
+                    "%s became %s (Resolve then refuses Telegram's own hosts or accepts foreign ones)"
+                    % ([show(h) for h in hosts], [show(h) for h in after[0][1:]]),
+                    {"history": ["h := deeplinks.ReservedHosts()", "h[i] = \"mirror-\" + h[i] + \".example.org\"; swap first/last; append(h[:0], \"evil.example.org\")",
+                                 "deeplinks.ReservedHosts()"],
+                     "expected": [show(h) for h in hosts], "got": [show(h) for h in after[0][1:]]})
 
     pr = C.coq_props(PROPS)
     C.coq_obligation_violations(ctx, pr, "C20")
